@@ -77,6 +77,13 @@ impl<E: FieldElement, H: ElementHasher<BaseField = E::BaseField>> VerifierChanne
                 air.options().num_queries()
             )));
         }
+        // a GKR proof accompanies exactly those proofs whose trace has a Lagrange kernel column
+        if gkr_proof.is_some() != air.context().has_lagrange_kernel_aux_column() {
+            return Err(VerifierError::ProofDeserializationError(
+                "a GKR proof must be present if and only if the trace has a Lagrange kernel column"
+                    .to_string(),
+            ));
+        }
         let constraint_frame_width = air.context().num_constraint_composition_columns();
 
         let num_trace_segments = air.trace_info().num_segments();
